@@ -104,6 +104,24 @@ def clip(pl, lo, hi):
     return out
 
 
+def prune(pl, maxvals):
+    """Drop source bits that are provably zero because (source + bias) never exceeds a known maximum."""
+    out = []
+    for (s, bi, sl, w, dl) in pl:
+        rng = maxvals.get(s)
+        if isinstance(rng, int):
+            rng = (0, rng)
+        if rng is not None and rng[1] is not None and rng[0] + bi >= 0:
+            mv = rng[1] + bi
+            nb = max(mv, 0).bit_length()
+            if sl >= nb:
+                continue
+            if sl + w > nb:
+                w = nb - sl
+        out.append((s, bi, sl, w, dl))
+    return out
+
+
 def canon(pl, c=0, bits=8):
     """Canonical form of a byte: placements clipped to [0,bits), bias reduced modulo the bits that
     can influence the slice."""
